@@ -137,8 +137,12 @@ func (fr *Frame) loopCut(b *ssa.BasicBlock, ord int, ci *cfgInfo) {
 			for _, in := range lb.Instrs {
 				if call, ok := in.(ssa.CallInstruction); ok {
 					for _, a := range call.Common().Args {
-						if v, ok := fr.env[a]; ok {
-							fr.markEscaped(v)
+						// the argument may be formed inside the loop from something that exists already (&w boxed
+						// into an interface, a field address, a slice of it, ...): what it is formed from escapes
+						for _, root := range valueRoots(a, 0) {
+							if v, ok := fr.env[root]; ok {
+								fr.markEscaped(v)
+							}
 						}
 					}
 					if v, ok := fr.env[call.Common().Value]; ok {
@@ -233,6 +237,35 @@ func (fr *Frame) loopCut(b *ssa.BasicBlock, ord int, ci *cfgInfo) {
 		// vacuity: the invariant together with the path must be satisfiable
 		r.addCover(fmt.Sprintf("loop%d-invariant-reachable", ord), fr.cur)
 	}
+}
+
+// valueRoots lists v and the values it is formed from by conversions, boxing and address arithmetic.
+func valueRoots(v ssa.Value, depth int) []ssa.Value {
+	out := []ssa.Value{v}
+	if depth > 6 {
+		return out
+	}
+	switch x := v.(type) {
+	case *ssa.MakeInterface:
+		out = append(out, valueRoots(x.X, depth+1)...)
+	case *ssa.ChangeInterface:
+		out = append(out, valueRoots(x.X, depth+1)...)
+	case *ssa.ChangeType:
+		out = append(out, valueRoots(x.X, depth+1)...)
+	case *ssa.Convert:
+		out = append(out, valueRoots(x.X, depth+1)...)
+	case *ssa.FieldAddr:
+		out = append(out, valueRoots(x.X, depth+1)...)
+	case *ssa.IndexAddr:
+		out = append(out, valueRoots(x.X, depth+1)...)
+	case *ssa.Slice:
+		out = append(out, valueRoots(x.X, depth+1)...)
+	case *ssa.Phi:
+		for _, e := range x.Edges {
+			out = append(out, valueRoots(e, depth+1)...)
+		}
+	}
+	return out
 }
 
 func (fr *Frame) checkInvariants(li *loopInfo, kind string, at *ssa.BasicBlock) {
